@@ -6,6 +6,7 @@
      4 Attempt id   5 Unreserve id   6 PodDelete id   7 Capacity t1 t2 t3
      8 PodAddBound  id quota np r1 r2 r3
      9 Check id (PreFilter alone)   10 Reserve id (Reserve alone)   11 FlipLend id (allow-lent-resource label flipped)
+     12 PodRelabel id (pod update flipping only the preemptible label)
    observation, per operation:
      status  nl (id l1 l2 l3)*nl  nd (id u1 u2 u3 n1 n2 n3)*nd *)
 From Coq Require Import List ZArith Bool.
@@ -33,6 +34,7 @@ Definition dec_op (l : list Z) : op * list Z :=
       else if c =? 9 then OCheck a1
       else if c =? 10 then OReserve a1
       else if c =? 11 then OQuotaFlipLend a1
+      else if c =? 12 then OPodRelabel a1
       else ONop), t)
   | _ => (ONop, [])
   end.
